@@ -256,6 +256,7 @@ Theorem download_passive_complete_tls w path r1 r2 rest x1 x2 x3 ip port :
   dp_tls_ok (r_data r2) = true -> dp_shutdown_ok (r_data r2) = true ->
   exists w', step w (ADownload path None None) = (OReturn (RvReplies [x1; x2; x3]), w') /\
     insync w' rest /\ w_data w' = None /\ w_cfg w' = w_cfg w /\
+    w_sess_id w' = w_sess_id w /\ w_ssl w' = w_ssl w /\ w_tls_up w' = w_tls_up w /\
     sink_bytes (io_events (skipn (length (w_trace w)) (w_trace w'))) = delivered (c_type (w_cfg w)) (concat (dp_segs (r_data r2))) /\
     wire_events (skipn (length (w_trace w)) (w_trace w')) =
       [WLine (setup_line (w_cfg w)); WReply x1; WLine (RETR_ ++ SP :: path); WReply x2; WReply x3] /\
@@ -293,7 +294,7 @@ Proof.
     rewrite run_ret.
     eexists. split; [reflexivity|].
     split. { unfold insync, ready. cbn. rewrite Hs. auto. }
-    split; [reflexivity|]. split; [reflexivity|].
+    split; [reflexivity|]. split; [reflexivity|]. split; [reflexivity|]. split; [reflexivity|]. split; [reflexivity|].
     trace_facts. auto.
   - destruct Tgt as (a & P1 & ->).
     erewrite (xchg PASV_ None _ _ _ _ x1); [| repeat split; auto | reflexivity | repeat split; auto | exact I].
@@ -309,7 +310,7 @@ Proof.
     rewrite run_ret.
     eexists. split; [reflexivity|].
     split. { unfold insync, ready. cbn. rewrite Hs. auto. }
-    split; [reflexivity|]. split; [reflexivity|].
+    split; [reflexivity|]. split; [reflexivity|]. split; [reflexivity|]. split; [reflexivity|]. split; [reflexivity|].
     trace_facts. auto.
 Qed.
 
@@ -441,4 +442,75 @@ Proof.
   split. { unfold insync, ready. cbn. destruct dp1; auto. }
   split; [reflexivity|]. split; [reflexivity|]. split; [reflexivity|].
   unfold block. cbn. rewrite <- !app_assoc, skipn_app_len. reflexivity.
+Qed.
+
+(* C18: any number of consecutive downloads over TLS on one control connection: every data handshake offers the SAME
+   session - the one of the control connection - when resumption is configured (and none when it is not) *)
+Definition tls_download_script (cfg : config) (r1 r2 : reaction) (x1 x2 x3 : reply) (ip : option bytes) (port : N) : Prop :=
+  simple_reaction r1 x1 /\ is_negative x1 = false /\ passive_target cfg x1 ip port /\ dp_reachable (r_data r1) = true /\
+  accepts_transfer r2 x2 x3 /\ dp_end (r_data r2) = DEof /\ dp_tls_ok (r_data r2) = true /\ dp_shutdown_ok (r_data r2) = true.
+
+Fixpoint handshakes (tr : list event) : list (option nat) :=
+  match tr with
+  | [] => []
+  | EData (DHandshake offered _) :: t => offered :: handshakes t
+  | _ :: t => handshakes t
+  end.
+Lemma handshakes_app a b : handshakes (a ++ b) = handshakes a ++ handshakes b.
+Proof. induction a as [|e a IH]; [reflexivity|]. cbn [app handshakes]. destruct e as [| | | | | |d| ]; try exact IH. destruct d; try exact IH. cbn [app]. rewrite IH. reflexivity. Qed.
+
+Lemma data_events_handshakes tr : handshakes tr = handshakes (map EData (data_events tr)).
+Proof.
+  induction tr as [|e tr IH]; [reflexivity|]. unfold data_events in *. cbn [map concat].
+  destruct e as [| | | | | |d| ]; cbn [handshakes app map]; try exact IH. destruct d; cbn [handshakes app map]; rewrite ?IH; reflexivity.
+Qed.
+
+Lemma step_ext w a : ext w (snd (step w a)).
+Proof.
+  assert (R : forall w0, w_trace w0 = w_trace w -> ext w w0) by (intros w0 H; exists []; rewrite app_nil_r; exact H).
+  destruct a; unfold step; cbn [snd]; try (apply R; reflexivity); (eapply ext_trans; [|apply run_ext]; apply R; reflexivity).
+Qed.
+
+(* scripts of k downloads over TLS *)
+Inductive tls_download_scripts (cfg : config) : list bytes -> list reaction -> Prop :=
+| tds_nil : tls_download_scripts cfg [] []
+| tds_cons path paths r1 r2 x1 x2 x3 ip port rs :
+    has_crlf path = false -> tls_download_script cfg r1 r2 x1 x2 x3 ip port ->
+    tls_download_scripts cfg paths rs -> tls_download_scripts cfg (path :: paths) (r1 :: r2 :: rs).
+
+Theorem consecutive_tls_downloads_offer_the_control_session : forall paths rs,
+  forall w rest, tls_download_scripts (w_cfg w) paths rs ->
+  insync w (rs ++ rest) -> w_data w = None -> c_mode (w_cfg w) = Passive -> c_tls (w_cfg w) = true ->
+  let w' := snd (steps w (map (fun p => ADownload p None None) paths)) in
+  insync w' rest /\ w_sess_id w' = w_sess_id w /\
+  handshakes (skipn (length (w_trace w)) (w_trace w')) =
+    repeat (if c_resume (w_cfg w) then Some (w_sess_id w) else None) (length paths).
+Proof.
+  induction paths as [|path paths IH]; intros rs w rest Hs Hi Hd Hm Ht; inversion Hs; subst.
+  - cbn. split; [exact Hi|]. split; [reflexivity|]. rewrite skipn_all. reflexivity.
+  - match goal with H : tls_download_script _ _ _ _ _ _ _ _ |- _ => destruct H as (S1 & N1 & Tg & Re & Ac & En & Tk & Sk) end.
+    cbn [app] in Hi.
+    destruct (download_passive_complete_tls w path r1 r2 (rs0 ++ rest) x1 x2 x3 ip port Hi Hd Hm Ht ltac:(assumption) S1 N1 Tg Re Ac En Tk Sk)
+      as (w1 & E & I1 & D1 & C1 & Sid & _ & _ & _ & _ & De).
+    cbn [map steps]. rewrite E.
+    pose proof (step_ext w (ADownload path None None)) as (tr1 & T1). rewrite E in T1. cbn [snd] in T1.
+    rewrite T1, skipn_app_len in De.
+    assert (Hs1 : tls_download_scripts (w_cfg w1) paths rs0) by (rewrite C1; assumption).
+    specialize (IH rs0 w1 rest Hs1 I1 D1 ltac:(rewrite C1; exact Hm) ltac:(rewrite C1; exact Ht)).
+    cbv zeta in IH. destruct (steps w1 (map (fun p => ADownload p None None) paths)) as [os w2] eqn:St.
+    cbn [snd] in *. destruct IH as (I2 & S2 & H2).
+    split; [exact I2|]. split; [congruence|].
+    (* the trace of w2 extends that of w1 *)
+    assert (X : ext w1 w2).
+    { clear - St. revert w1 os w2 St. induction (map (fun p => ADownload p None None) paths) as [|a l IHl]; intros w1 os w2 St.
+      - cbn in St. inversion St. apply ext_refl.
+      - cbn [steps] in St. pose proof (step_ext w1 a) as X1. destruct (step w1 a) as [o w3]. cbn [snd] in X1.
+        destruct o.
+        + destruct (steps w3 l) as [os' w4] eqn:S'. inversion St; subst. eapply ext_trans; [exact X1|]. eapply IHl; eassumption.
+        + destruct (steps w3 l) as [os' w4] eqn:S'. inversion St; subst. eapply ext_trans; [exact X1|]. eapply IHl; eassumption.
+        + inversion St; subst. exact X1. }
+    destruct X as (tr2 & T2).
+    rewrite T2, T1, <- app_assoc, skipn_app_len, handshakes_app.
+    rewrite T2, skipn_app_len in H2. rewrite H2.
+    rewrite data_events_handshakes, De. cbn [map handshakes length repeat app]. rewrite C1, Sid. reflexivity.
 Qed.
